@@ -29,7 +29,7 @@ RULE = ('family = one store (new / from_dict / from_list with immutable_warranty
         'read equals the pristine snapshot taken at construction. Non-trivial = a '
         'mutation happened before a later read; distinct = distinct (store, payload, '
         'history).')
-PROBES = ['two_client_threads', 'mutated_then_reread_same_path', 'mutated_then_reread_other_path',
+PROBES = ['iterator_kept_open', 'slice_dataset_kept', 'two_client_threads', 'mutated_then_reread_same_path', 'mutated_then_reread_other_path',
           'original_container_mutated', 'read_by_prefetch_worker',
           'first_access_object_mutated', 'cached_access_object_mutated']
 BUDGET = {
@@ -91,7 +91,15 @@ def gen(rng, tier, index):
         ops = []
         for _ in range(rng.randrange(5, 17)):
             r = rng.random()
-            if r < 0.5:
+            if r < 0.12:
+                # an iterator kept open and advanced between other operations
+                ops.append(rng.choice([['it_open', rng.choice(['iter', 'items']) if kind == 'dict'
+                                        else 'iter'], ['it_next'], ['it_next']]))
+            elif r < 0.2:
+                # a slice dataset that is kept and read repeatedly
+                ops.append(rng.choice([['ks_open', rng.randrange(n)], ['ks_read', rng.randrange(n)],
+                                       ['ks_read', rng.randrange(n)]]))
+            elif r < 0.5:
                 p = rng.choice(PATHS)
                 if p in ('key', 'items') and kind != 'dict':
                     p = 'index'
@@ -228,9 +236,43 @@ def run(case):
             _c11.StoreFault.countdown = None
             if case['store'] == 'diskcache':
                 _dc.Cache.__setitem__ = _c11._faulty_setitem
+            held_it = None      # [iterator, next index, path]
+            kept = None         # [slice dataset, start]
             for op in case['ops']:
                 if violations:
                     break
+                if op[0] == 'it_open':
+                    held_it = [iter(ds.items() if op[1] == 'items' else ds), 0, op[1]]
+                    probes['iterator_kept_open'] = 1
+                    continue
+                if op[0] == 'it_next':
+                    if held_it is not None and held_it[1] < n:
+                        try:
+                            v = next(held_it[0])
+                        except StopIteration:
+                            held_it = None
+                            continue
+                        except Exception:
+                            if case['store'] == 'diskcache':
+                                held_it = None      # a licensed store fault ended it
+                                continue
+                            raise
+                        check(held_it[1], v, held_it[2])
+                        held_it[1] += 1
+                    continue
+                if op[0] == 'ks_open':
+                    kept = [ds[op[1]:], op[1]]
+                    probes['slice_dataset_kept'] = 1
+                    continue
+                if op[0] == 'ks_read':
+                    if kept is not None and kept[1] + op[1] < n:
+                        j = op[1]
+                        try:
+                            check(kept[1] + j, kept[0][j], 'kept_slice')
+                        except (OSError, _sq.OperationalError):
+                            if case['store'] != 'diskcache':
+                                raise
+                    continue
                 if op[0] == 'store_error':
                     _c11.StoreFault.kind, _c11.StoreFault.countdown = op[1], op[2]
                     fired['store_error_armed'] = fired.get('store_error_armed', 0) + 1
